@@ -6,7 +6,8 @@ Driver for C01. Requests (fields separated by ` | `):
 
   `db | id:a=V+V,a=V;id:-;…`            → `ok <n>`       stored entries (ids ascending)
   `tbl | a:t,a:t,…`  (t ∈ e s p o)      → `ok <n>`       the index tables that exist
-  `rows | a:t:K:i.i.i;…`                → `ok <n>`       their rows (K a value; presence key `s95`)
+  `rows | a:t:K:i.i.i:c;…`              → `ok <n>`       their rows (K a value; presence key `s95`;
+                                                         c = 1 iff the stored id set is compressed)
   `sound`                               → `sound` | `unsound a t K`
         the tables agree, key by key, with the reference index `idxOf` of the stored entries
   `f2i <thres> | <F>`                   → `<kind> <ids>`  `F.idl`   (kind ∈ AllIds Partial PartialThreshold Indexed)
@@ -23,7 +24,7 @@ structure St where
   w : World
   assoc : List (Nat × List (Nat × List Val))
   tbls : List (Nat × IType)
-  rows : List (Nat × IType × Val × List Nat)
+  rows : List (Nat × IType × Val × List Nat × Bool)
 
 def St.init : St := ⟨⟨[], fun _ => Entry.ofList []⟩, [], [], []⟩
 
@@ -41,9 +42,14 @@ def itypeChar : IType → String
 def St.idx (st : St) : Idx := fun a t k =>
   if st.tbls.contains (a, t) then
     some (match st.rows.find? (fun r => r.1 == a && r.2.1 == t && r.2.2.1 == k) with
-      | some r => r.2.2.2
+      | some r => r.2.2.2.1
       | none => [])
   else none
+
+def St.rep (st : St) : Rep := fun a t k =>
+  match st.rows.find? (fun r => r.1 == a && r.2.1 == t && r.2.2.1 == k) with
+  | some r => r.2.2.2.2
+  | none => false
 
 def parseDb (s : String) : Option (List (Nat × List (Nat × List Val))) :=
   if s == "-" || s == "" then some [] else
@@ -67,11 +73,12 @@ def parseTbls (s : String) : Option (List (Nat × IType)) :=
 def parseIds (s : String) : Option (List Nat) :=
   if s == "-" || s == "" then some [] else (s.splitOn ".").mapM String.toNat?
 
-def parseRows (s : String) : Option (List (Nat × IType × Val × List Nat)) :=
+def parseRows (s : String) : Option (List (Nat × IType × Val × List Nat × Bool)) :=
   if s == "-" || s == "" then some [] else
   (s.splitOn ";").mapM fun item =>
     match item.splitOn ":" with
-    | [a, t, k, ids] => do pure (← a.toNat?, ← itypeOf t, ← Val.ofString k, ← parseIds ids)
+    | [a, t, k, ids, c] => do
+      pure (← a.toNat?, ← itypeOf t, ← Val.ofString k, ← parseIds ids, ← bool? c)
     | _ => none
 
 def kindName : Kind → String
@@ -128,15 +135,15 @@ def handle (st : St) (line : String) : St × String :=
     | ["f2i", thres] =>
       match thres.toNat?, F.parse x with
       | some thres, some f =>
-        let i := f.idl st.idx thres
+        let i := f.idl st.idx st.rep thres
         (st, s!"{kindName i.kind} {showNatList (sortNats i.ids)}")
       | _, _ => (st, "bad-args")
     | ["search", ua, mr, mf, thres] =>
       match parseLim ua mr mf, F.parse x with
       | some lim, some f =>
         let r := match thres.toNat? with
-          | some t => searchT t ValSem.std lim st.w st.idx f
-          | none => search ValSem.std lim st.w st.idx f
+          | some t => searchT t ValSem.std lim st.w st.idx st.rep f
+          | none => search ValSem.std lim st.w st.idx st.rep f
         match r with
         | .ok ids => (st, s!"ok {showNatList (sortNats ids)}")
         | .error _ => (st, "err limit")
@@ -145,8 +152,8 @@ def handle (st : St) (line : String) : St × String :=
       match parseLim ua mr mf, F.parse x with
       | some lim, some f =>
         let r := match thres.toNat? with
-          | some t => existsT t ValSem.std lim st.w st.idx f
-          | none => «exists» ValSem.std lim st.w st.idx f
+          | some t => existsT t ValSem.std lim st.w st.idx st.rep f
+          | none => «exists» ValSem.std lim st.w st.idx st.rep f
         match r with
         | .ok b => (st, s!"ok {showBool b}")
         | .error _ => (st, "err limit")
